@@ -16,15 +16,15 @@ type Chooser interface {
 // packed and unpacked are interchangeable, varints may be padded, map entry fields may come in
 // any order and be omitted when zero).
 type EncOpts struct {
-	Shuffle      bool // field order
-	Repack       bool // packed <-> unpacked, split packed runs
-	Denorm       bool // padded varints in tags, lengths and varint values
-	Decoys       bool // earlier overwritten occurrences of singular scalars and map keys
-	SplitMsgs    bool // a submessage encoded as two occurrences that merge
-	MapVariants  bool // value before key, omitted zero key/value
-	SortFields   bool // canonical: emit fields ascending by number (ignored when Shuffle draws)
-	Interleave   bool // with SplitMsgs: the second occurrence of a split submessage goes to the end of the enclosing message (other fields in between)
-	Labels       *[]string
+	Shuffle     bool // field order
+	Repack      bool // packed <-> unpacked, split packed runs
+	Denorm      bool // padded varints in tags, lengths and varint values
+	Decoys      bool // earlier overwritten occurrences of singular scalars and map keys
+	SplitMsgs   bool // a submessage encoded as two occurrences that merge
+	MapVariants bool // value before key, omitted zero key/value
+	SortFields  bool // canonical: emit fields ascending by number (ignored when Shuffle draws)
+	Interleave  bool // with SplitMsgs: the second occurrence of a split submessage goes to the end of the enclosing message (other fields in between)
+	Labels      *[]string
 }
 
 var AllPerturbations = EncOpts{Shuffle: true, Repack: true, Denorm: true, Decoys: true, SplitMsgs: true, MapVariants: true}
